@@ -78,7 +78,21 @@ func RunMachineDebug(m *xpath.Machine, entry xpath.Entry, debug bool) (o Obs) {
 			o.Panic = fmt.Sprint(r)
 		}
 	}()
-	res := xpath.NewCtxFromCurrent(gocontext.Background(), m, entry).SetDebug(debug).Run()
+	return observe(xpath.NewCtxFromCurrent(gocontext.Background(), m, entry).SetDebug(debug).Run())
+}
+
+// RunMachineFromMach runs a machine through the other context constructor, NewCtxFromMach (no data
+// tree: meaningful for expressions without location paths only).
+func RunMachineFromMach(m *xpath.Machine) (o Obs) {
+	defer func() {
+		if r := recover(); r != nil {
+			o.Panic = fmt.Sprint(r)
+		}
+	}()
+	return observe(xpath.NewCtxFromMach(m, nil).Run())
+}
+
+func observe(res *xpath.Result) (o Obs) {
 	if res == nil {
 		o.Panic = "Run returned nil"
 		return
